@@ -31,7 +31,7 @@ RULE = ("images: every canvas width 1..40 x (H, top offset) in {(1,0),(2,0),(3,1
 TRUSTED = ["harness/bitd_spec.py: Python scan-line layouts, PackBits encoder, BMP reader, canvas (independent of /repo)",
            "lean/Drx/BitdSpec.lean: the same in Lean (trusted by definition; cross-checked against the Python side on every case)",
            "correspondence is sampled over the stated grids"]
-ASSUMPTIONS = ["0 <= offsets <= canvas size; (W+1)(H+1)*4 + 2000 < 2^31", "system palette (custom palettes are exercised in C13/C14)",
+ASSUMPTIONS = ["spec images: 0 <= offsets <= canvas size, (W+1)(H+1)*4 + 2000 < 2^31; negative offsets as separate cases (enlarged canvas); width, height >= 0", "system palette (custom palettes are exercised in C13/C14)",
                "PackBits header 0x80 (129 copies, reserved in the format) is not generated", "logging ignored"]
 
 
@@ -316,7 +316,7 @@ def malformed_cases(rng, n):
     for _ in range(n):
         depth = rng.choice([1, 8, 16, 32, 8, 1])
         W = rng.randrange(1, 12); H = rng.randrange(1, 4)
-        ox = rng.choice([0, 0, rng.randrange(0, W + 2)]); oy = rng.choice([0, 0, rng.randrange(0, H + 2), -1])
+        ox = rng.choice([0, 0, rng.randrange(-3, W + 2)]); oy = rng.choice([0, 0, rng.randrange(-2, H + 2), -1])
         r = rng.random()
         if r < 0.5 and ox < W and 0 <= oy < H:
             img = rand_img(rng, depth, W, H, ox, oy)
@@ -336,7 +336,36 @@ def malformed_cases(rng, n):
             data = bytes(rng.choice([0x80, 0xFF, 0x81, 0, 1, 2, 0x7F, rng.randrange(256)]) for _ in range(rng.choice([0, 1, 2, 3, rng.randrange(0, 40)])))
         c = c13.call(depth, W, H, ox, oy, data)
         out.append(Case(kind="malformed", spec=dict(depth=depth, W=W, H=H, ox=ox, oy=oy, data=data.hex()),
-                        lines=["bitd decode " + c13.tok(c), "bitd steps " + c13.tok(c)], expect=[None, None]))
+                        lines=["bitd decode " + c13.tok(c), "bitd steps " + c13.tok(c), "bitd decodefast " + c13.tok(c)], expect=[None, None, None]))
+    return out
+
+
+def negoff_cases(rng, tier):
+    """negative registration offsets: the record declares a canvas smaller than the image; the result must be the image on the
+    enlarged canvas, byte for byte what the normalised request (offset 0, enlarged canvas) gives"""
+    import c13
+    out = []
+    ks = range(1, 6) if tier == "quick" else range(1, 18)
+    for depth in (1, 8, 16, 32):
+        for Wn in range(1, 14 if tier == "quick" else 41):
+            for k in ks:
+                for (Hn, kt) in ((1, 0), (2, 0), (3, 1), (2, 2)):
+                    if k > Wn or kt > Hn:
+                        continue
+                    img = rand_img(rng, depth, Wn, Hn, 0, 0)          # the image on its own canvas
+                    pad = rng.choice([0, 0xFF])
+                    for name, enc in encodings(rng, img, pad, (["raw"] if depth in (1, 8) else []) + ["one", "rand"], confined=False):
+                        data = enc_bytes(img, pad, enc)
+                        if enc != "raw" and len(data) == S.raw_len(img):
+                            continue
+                        neg = c13.call(depth, Wn - k, Hn - kt, -k, -kt, data)
+                        norm = c13.call(depth, Wn, Hn, 0, 0, data)
+                        spec = dict(depth=depth, W=Wn, H=Hn, ox=-k, oy=-kt, pad=pad, enc=name, pix=pix_hex(img), packed=(enc != "raw"))
+                        out.append(Case(kind="negoff-%d" % depth, spec=spec,
+                                        lines=["bitd decode " + c13.tok(neg), "bitd decode " + c13.tok(norm), "bitd decodefast " + c13.tok(neg)],
+                                        expect=[None, None, None]))
+    if tier == "quick" and len(out) > 1500:
+        out = rng.sample(out, 1500)
     return out
 
 
@@ -346,6 +375,7 @@ def cases(rng, tier):
     out += short_row_cases(rng, tier)
     out += planar_cases(rng, n[0])
     out += large_cases(rng, n[1])
+    out += negoff_cases(rng, tier)
     out += malformed_cases(rng, n[2])
     return out
 
@@ -358,7 +388,7 @@ def impl(case):
     out = []
     for line in case["lines"]:
         t = line.split()
-        if t[1] == "decode":
+        if t[1] in ("decode", "decodefast"):
             import c13
             out.append(canon(c13.run_call(m, c13.untok(t[2]))))
             continue
@@ -382,7 +412,7 @@ def impl(case):
                 read_ok = (rows == S.canvas(img))
             except S.BmpError:
                 read_ok = False
-        out.append(canon({"enc_ok": True, "valid": valid_enc(img, pad, enc), "read_ok": read_ok, "supported": supported(img, enc),
+        out.append(canon({"enc_ok": True, "fast_ok": True, "valid": valid_enc(img, pad, enc), "read_ok": read_ok, "supported": supported(img, enc),
                           "bmp": bmp.hex() if bmp is not None else "error"}))
     return out
 
@@ -438,9 +468,38 @@ def classify(img, enc, data):
     return None
 
 
+def negoff_oracle(case, io_):
+    sp = case["spec"]
+    try:
+        neg, norm = json.loads(io_[0]), json.loads(io_[1])
+    except Exception:
+        return None
+    what = "a %d-bit image of %dx%d declared with offsets (%d,%d) on a smaller canvas" % (sp["depth"], sp["W"], sp["H"], sp["ox"], sp["oy"])
+    if neg == "error":
+        return "[negoff][unlisted] %s: the BMP could not be produced (exception)" % what
+    if neg != norm:
+        return "[negoff][unlisted] %s does not decode like the same image on the enlarged canvas at offset 0" % what
+    B = bytes.fromhex(sp["pix"].replace("-", ""))
+    k = {1: 1, 8: 1, 16: 2, 32: 4}[sp["depth"]]
+    W, H = sp["W"], sp["H"]
+    pix = []
+    for j in range(H):
+        row = B[j * W * k:(j + 1) * W * k]
+        if sp["depth"] in (1, 8): pix.append(list(row))
+        elif sp["depth"] == 16: pix.append([(row[2 * i] << 8) | row[2 * i + 1] for i in range(W)])
+        else: pix.append([list(row[4 * i:4 * i + 4]) for i in range(W)])
+    img = dict(depth=sp["depth"], W=W, H=H, ox=0, oy=0, pix=pix)
+    exp = S.expected_bmp(img, sp["packed"], S.repo_palette(sp["depth"], "black and white" if sp["depth"] == 1 else "systemMac"))
+    if neg != exp.hex():
+        return "[negoff][unlisted] %s: the BMP is not the image on the enlarged canvas" % what
+    return None
+
+
 def oracle(case, io_):
     if case["kind"] == "malformed":
         return None
+    if case["kind"].startswith("negoff"):
+        return negoff_oracle(case, io_)
     fs = failures_of(case, io_)
     if not fs:
         return None
